@@ -29,11 +29,18 @@ def gen_doc(rng, nested=True):
             meta.append((k, rng.choice(['Plain value', 'A & B', 'x < y > z', '"q" \'s\'', 'Ünï 中', 'v  w', 'a: b', '100%'])))
         if rng.random() < 0.35:
             meta.insert(rng.randint(0, len(meta)), ('Base Header Level', rng.choice(['2', '3', '1'])))      # shifts rendered levels, not the outline
-    nsec = rng.randint(0, 6)
+    nsec = rng.randint(0, 6) if rng.random() < 0.85 else rng.randint(10, 28)        # also large, deep trees with many siblings per level
     level = 0
     sections = []
+    stairs = None
+    if nested and nsec >= 10 and rng.random() < 0.4:
+        # a staircase: at every depth first a sibling, then the heading that goes one level deeper (depth 6 with an earlier sibling at each level)
+        stairs = [l for l in range(1, 7) for _ in range(rng.choice([2, 2, 3]))]
+        nsec = max(nsec, len(stairs))
     for i in range(nsec):
-        if nested:
+        if stairs and i < len(stairs):
+            level = stairs[i]
+        elif nested:
             level = rng.randint(1, min(level + 1, 6)) if level else 1
         else:
             level = rng.randint(1, 6)
